@@ -62,9 +62,10 @@ def optable_stream(ctx, h, m, stream="c29.optable"):
     return len(ids)
 
 
-def verify_stream(ctx, h, m, stream, n, extra_args=(), names=None, judge=None, corpus=None):
+def verify_stream(ctx, h, m, stream, n, extra_args=(), names=None, judge=None, corpus=None, nwide=0, nwiderand=0):
     """export every function, validate with the extracted model, compare with the Go oracle."""
-    args = ["-extra", "export", "-n", str(n), "-seed", str(ctx.sseed(stream)), "-repo", vlib.REPO] + list(extra_args)
+    args = ["-extra", "export", "-n", str(n), "-nwide", str(nwide), "-nwiderand", str(nwiderand),
+            "-seed", str(ctx.sseed(stream)), "-repo", vlib.REPO] + list(extra_args)
     tmp = None
     if ctx.replay:
         rp = json.load(open(ctx.replay))
@@ -78,7 +79,9 @@ def verify_stream(ctx, h, m, stream, n, extra_args=(), names=None, judge=None, c
     ids, inputs, obs, exp = run_cases(ctx, h, m, args)
     names = names or {}
     dist = {"functions": 0, "programs_compiled": 0, "programs_rejected_by_checker": 0, "compiler_panics": 0,
-            "origin_repo": 0, "origin_generated": 0, "origin_corpus": 0, "origin_wide": 0}
+            "origin_repo": 0, "origin_generated": 0, "origin_corpus": 0, "origin_wide": 0,
+            "origin_wide_generated": 0, "functions_pool_over_255": 0, "functions_code_over_64k": 0}
+    widetags = {}
     progs = set()
     distinct = set()
     tags = {}
@@ -98,9 +101,18 @@ def verify_stream(ctx, h, m, stream, n, extra_args=(), names=None, judge=None, c
         origin = i.split("#")[0]
         progs.add(origin)
         k = ("origin_repo" if origin.startswith("repo:") else "origin_generated" if origin.startswith("gen")
+             else "origin_wide_generated" if origin.startswith("widegen")
              else "origin_wide" if origin.startswith("wide") else "origin_corpus")
         dist[k] += 1
-        mt = re.match(r"gen\d+\[(.*)\]", origin)
+        mv = re.search(r";vals=([^;]*)", inp)
+        if mv and mv.group(1).count(",") >= 256:
+            dist["functions_pool_over_255"] += 1
+        if len(inp.split(";", 1)[0]) > 2 * 65536:
+            dist["functions_code_over_64k"] += 1
+        if origin.startswith("wide:"):
+            for t in origin[5:].split("/")[:2]:
+                widetags[t] = widetags.get(t, 0) + 1
+        mt = re.match(r"(?:wide)?gen\d+\[(.*)\]", origin)
         if mt:
             for t in mt.group(1).split(","):
                 tags[t] = tags.get(t, 0) + 1
@@ -118,6 +130,7 @@ def verify_stream(ctx, h, m, stream, n, extra_args=(), names=None, judge=None, c
         judge(ctx, stream, i, inp, obs[i], e, names)
     dist["programs_compiled"] = len(progs)
     dist["generated_construct_tags"] = tags
+    dist["wide_shape_tags"] = widetags
     ctx.stream(stream, compared, len(distinct), None, samples, dist)
     return compared, len(progs), dist
 
@@ -127,6 +140,9 @@ def judge_c29(ctx, stream, cid, inp, go, model, names):
         mo = re.search(r"op=(\d+)", model)
         opn = names.get(int(mo.group(1)), mo.group(1)) if mo else "-"
         clause = model.split()[1] if len(model.split()) > 1 else "unknown"
+        if clause == "target-is-end-of-code":
+            # one class per control-flow kind, not per comparison opcode
+            opn = "jump" if opn == "JUMP" else ("branch" if opn.startswith(("JUMP_", "FOR_IN")) else opn)
         ctx.fail("verify:%s:%s" % (clause, opn),
                  "a compiled function is rejected by the proved validator: %s (%s)" % (model, cid),
                  stream=stream, case=inp, impl=go, model=model,
@@ -175,7 +191,8 @@ def run(ctx):
         nops = optable_stream(ctx, h, m)
     compared, nprogs, dist = verify_stream(
         ctx, h, m, "c29.verify", ctx.n(80, 6000), names=names, judge=judge_c29,
-        corpus=os.path.join(vlib.ROOT, "corpus", "C29.verify.txt"))
+        corpus=os.path.join(vlib.ROOT, "corpus", "C29.verify.txt"),
+        nwide=ctx.n(70, 1200), nwiderand=ctx.n(25, 1500))
     ctx.streams["c29.verify"]["rule"] = (
         "corpus programs, then main.elk.test (imports std + every *.elk.test), standalone *.elk, wide-frame programs, then "
         "seeded generated programs (methods, generators, async, classes, modules, macros; nested/labelled loops of every "
